@@ -6,4 +6,4 @@ LABELS = {'quick': 'abort nested cancel until cancel_close until_time'.split(), 
 
 
 def run(check):
-    scopedom.run(check, OBS, LABELS[check.tier])
+    scopedom.run(check, OBS, LABELS[check.tier], conform=True)
